@@ -359,5 +359,7 @@ def run_trace(cfg, trace, kinds, init_env=None, observe=None, timeout=10.0):
     result['exec_counts'] = counts
     result['reads'] = reads
     result['env'] = {k: (dict(v) if isinstance(v, dict) else v) for k, v in env.dictionary.items()}
+    result['queue_items'] = len(queue.items)
+    result['queue_unfinished'] = queue.unfinished
     result['log'] = ctl.log
     return result
